@@ -86,6 +86,7 @@ def check(run):
     cmdfiles(run, p, fc)
     rawlines(run, p, fc)
     tmpcfg(run, p, rt, fc)
+    emptycontent(run, p, fc)
 
 
 def cmdfiles(run, p, fc):
@@ -275,3 +276,28 @@ def _sym_block(stmts, st, env):
                     st[norm(t)] = v
         elif isinstance(s, (ast.With, ast.Try)):
             _sym_block(s.body, st, env)
+
+
+def emptycontent(run, p, fc):
+    from .common import bare_truth_tests
+    run.rule('C15-EMPTY', 'empty content is content: in add_failures the parameters whose value is written out as a file (actual, '
+                          'expected) are tested with `is (not) None` only - a bare truthiness test would leave a failing assertion on an '
+                          'empty string without its actual-raw- file and without a comparison command')
+    f = fc.methods['add_failures']
+    content = set()
+    for x in p.own_nodes(f):
+        if isinstance(x, ast.Call) and isinstance(x.func, ast.Attribute) and x.func.attr == 'write_file' and len(x.args) > 1 \
+                and isinstance(x.args[1], ast.Name) and x.args[1].id in f.params:
+            content.add(x.args[1].id)
+    if not content:
+        raise AnalysisError('add_failures no longer writes a parameter out as a file')
+    bad = [(nm, node) for nm, node in bare_truth_tests(f.node) if nm in content]
+    n = 0
+    for nm in sorted(content):
+        n += 1
+        hits = [node for k, node in bad if k == nm]
+        run.ob('C15-EMPTY', '%s::%s::%s' % (f.rel, f.short, nm), not hits,
+               'content parameter %s is %s' % (nm, 'tested against None only' if not hits else
+                                               'used as a bare condition (%s): an empty value is treated as absent' % norm(hits[0].test if hasattr(hits[0], 'test') else hits[0])[:60]),
+               fn=f, node=hits[0] if hits else None)
+    run.floor('C15-EMPTY', n, 2)
